@@ -592,7 +592,7 @@ def run(tier, seed, cfgs=None):
         singles = rng.sample(ins, min(len(ins), 2 if tier == "quick" else 3))
         jobs.append((cid, c, ins, singles))
     jobs.sort(key=lambda j: -(len(j[2]) << j[1]["N"]))            # heavy ones first
-    nproc = int(os.environ.get("VERIF_C56_PROCS", "8"))
+    nproc = int(os.environ.get("VERIF_C56_PROCS", "12"))
     results, cpu, cpus = {}, 0.0, {}
     with mp.get_context("fork").Pool(nproc) as pool:
         for cid, recs, t in pool.imap_unordered(run_config, jobs, chunksize=1):
